@@ -254,6 +254,7 @@ def simulate(spec):
                 s.updates.append((ev[0], tick))
         elif k == "del":
             s.data.pop(op[2], None)
+            s.gone = getattr(s, "gone", set()) | {op[2]}
         elif k == "value":
             s.data["value"] = op[2]
             s.updates.append((ev[0], tick))
@@ -274,6 +275,7 @@ def simulate(spec):
             snap = {"tick": i, "ctl": tick["ctl"], "ev": ev[0], "stamp": st[i], "time": fmt(st[i]),
                     "data": {p: dict(s.data) for p, s in shares.items() if s.kind == "data"},
                     "order": {p: list(s.data) for p, s in shares.items() if s.kind == "data"},
+                    "gone": {p: sorted(getattr(s, "gone", ())) for p, s in shares.items() if s.kind == "data"},
                     "drained": {p: list(s.queue) for p, s in shares.items() if s.kind != "data"}}
             for s in shares.values():
                 if s.kind != "data":
@@ -396,8 +398,15 @@ def check_log(ctx, spec, lg, shares, runs, parsed, witness):
             if ri == 0:
                 exp = [line]
             else:
-                diff = sorted(k for k in now if now[k] != lastvals[k] and now[k] is not _ABSENT)   # (a field taken away is no change)
+                # a field that was taken away at some time: its absence is no change, and what counts as its "last logged value"
+                # when it comes back is not stated -- differences of such a field alone are not judged
+                gone = {(tag, f) for le, (tag, fields) in zip(lg["loggees"], tagfields) for f in fields
+                        if f in snap["gone"].get(le["share"], ())}
+                diff = sorted(k for k in now if now[k] != lastvals[k] and k not in gone)
                 exp = [line] if diff else []
+                if not diff and any(now[k] != lastvals[k] for k in gone):
+                    exp = list(obs)
+                    ctx.hit("change_runs_not_judged_for_a_field_that_was_taken_away")
                 info = {"fields_differing_from_last_logged": [list(k) for k in diff[:6]],
                         "last_logged": {"%s.%s" % k: v for k, v in lastvals.items()}}
                 if exp and not obs:
